@@ -939,6 +939,16 @@ class TextXMetaMetaModel:
             self._metamodel.register_obj_processors({"ReText": lambda text: text[1:-1]})
         return self._metamodel
 
+    def __getitem__(self, name):
+        """
+        A class of the textX language by its name. Used when a grammar
+        references the textX language (`reference textX`).
+        """
+        return self.metamodel[name]
+
+    def __contains__(self, name):
+        return name in self.metamodel
+
     def model_from_str(self, model_str, debug=None, **kwargs):
         """
         Instantiates meta-model (a.k.a. textX model) from the given string.
